@@ -101,6 +101,8 @@ PROGRAMS = [
     "import sys\nif sys.argv is not None:\n    FLAG = True\nelse:\n    FLAG = False\ndef f():\n    return FLAG\nprint(f())\n",
     "def f():\n    global H\n    for H in range(2):\n        pass\n    with open(__file__) as H2:\n        pass\n    return H\nprint(f(), H)\n",
     # --- nonlocal in several shapes
+    "def outer(xs):\n    count = 0\n    def bump():\n        nonlocal count\n        count += 1\n    limit = 3\n    for x in xs:\n        if x > limit:\n            bump()\n    return count, limit\nprint(outer([1, 5]))\n",
+    "def outer(xs):\n    total = 0\n    def add(v):\n        nonlocal total\n        total = total + v\n    scale = 2\n    try:\n        for x in xs:\n            while x:\n                add(x * scale)\n                x -= 1\n    finally:\n        done = scale\n    return total, done\nprint(outer([1, 2]))\n",
     "def counter():\n    n = 0\n    def inc(by=1):\n        nonlocal n\n        if by:\n            n += by\n        return n\n    return inc\nc = counter()\nprint(c(), c(0), c(2))\n",
     "def outer():\n    a = b = 0\n    def mid():\n        nonlocal a\n        def inner():\n            nonlocal a, b\n            a, b = a + 1, b + 1\n            return a, b\n        return inner()\n    return mid(), a, b\nprint(outer())\n",
     "def outer():\n    items = []\n    def add(x):\n        nonlocal items\n        items = items + [x]\n        for items2 in items:\n            pass\n        return items\n    return add(1), items\nprint(outer())\n",
@@ -203,6 +205,17 @@ def walrus_in_comp_condition(src, read):
     return False
 
 
+def walrus_condition_binding_read_by_element(src, name):
+    """the name is bound by a walrus in a comprehension condition and read by that comprehension's element"""
+    for n in ast.walk(ast.parse(src)):
+        if isinstance(n, (ast.ListComp, ast.SetComp, ast.GeneratorExp, ast.DictComp)):
+            bound = any(isinstance(w, ast.NamedExpr) and w.target.id == name for g in n.generators for c in g.ifs for w in ast.walk(c))
+            elts = [n.key, n.value] if isinstance(n, ast.DictComp) else [n.elt]
+            if bound and any(isinstance(w, ast.Name) and w.id == name and isinstance(w.ctx, ast.Load) for e in elts for w in ast.walk(e)):
+                return True
+    return False
+
+
 def run(check, S):
     """-> number of reads judged"""
     import logging
@@ -247,6 +260,98 @@ def run(check, S):
     check.extra['executed_corpus'] = {'programs': len(PROGRAMS), 'reads_judged': n, 'programs_not_finished': unfinished}
     logging.disable(logging.NOTSET)
     return n
+
+
+def binding_sites(tree):
+    """identifier -> list of (line) of its binding sites anywhere in the file (purely syntactic)"""
+    sites = {}
+
+    def add(name, node):
+        sites.setdefault(name, []).append(node.lineno)
+    for n in ast.walk(tree):
+        if isinstance(n, ast.Name) and isinstance(n.ctx, (ast.Store, ast.Del)):
+            add(n.id, n)
+        elif isinstance(n, ast.arg):
+            add(n.arg, n)
+        elif isinstance(n, (ast.FunctionDef, ast.AsyncFunctionDef, ast.ClassDef)):
+            add(n.name, n)
+        elif isinstance(n, ast.alias):
+            add((n.asname or n.name).split('.')[0], n)
+        elif isinstance(n, ast.ExceptHandler) and n.name:
+            add(n.name, n)
+        elif isinstance(n, (ast.Global, ast.Nonlocal)):
+            for x in n.names:
+                sites.setdefault(x, []).append(-1)      # a declaration: the identifier is not "bound exactly once, plainly"
+    return sites
+
+
+def run_c02(check, S):
+    """C02 on the executed corpus: an identifier with exactly ONE binding site in the whole file (no global / nonlocal declaration of
+    it) that CPython read successfully was read from that site.  So lint must not call that binding unused, and go-to-definition
+    from the read must list that site (compared by line).  -> number of reads judged"""
+    import logging
+    logging.disable(logging.CRITICAL)
+    project = S['project'].Project(['/nonexistent-c01-exec'])
+    lint, location = S['linter'].lint, S['assistant'].location
+    n = 0
+    fn = '/nonexistent-c01-exec/m.py'
+    for src in PROGRAMS:
+        try:
+            tree = ast.parse(src)
+        except SyntaxError:
+            continue
+        seen, how = observe(src)
+        sites = binding_sites(tree)
+        single = {k: v[0] for k, v in sites.items() if len(v) == 1 and v[0] > 0}
+        try:
+            diags = lint(project, src, fn)
+        except Exception:  # noqa  -- judged by C01 / C08
+            continue
+        lines = src.split('\n')
+        read_names = set(name for name, ln, col in seen)
+        for d in diags:
+            if d[0] in ('W01', 'W02'):
+                name = d[1].split(': ', 1)[1]
+                if name in single and name in read_names and d[2] == single[name]:
+                    check.fail('C02 (executed corpus): the only binding of a name CPython reads is reported unused (%s)' % d[0],
+                               {'kind': 'c02_exec', 'source': src, 'name': name, 'diagnostic': list(d[:4])})
+        for name, ln, col in sorted(seen):
+            if name not in single or not lines[ln - 1].isascii():
+                continue
+            n += 1
+            try:
+                locs = location(project, src, (ln, col + len(name)), fn)
+            except Exception:  # noqa  -- totality is C08
+                continue
+            flat = []
+            for r in locs or []:
+                flat += r if isinstance(r, list) else [r]
+            if not any(r.get('file') == fn and r['loc'][0] == single[name] for r in flat):
+                check.fail('C02 (executed corpus): go-to-definition from a read misses the only binding of the name',
+                           {'kind': 'c02_exec', 'source': src, 'read': [name, ln, col], 'binding_line': single[name],
+                            'location': [list(r['loc']) for r in flat if r.get('file') == fn]})
+    check.extra['executed_corpus_c02'] = {'programs': len(PROGRAMS), 'reads_of_singly_bound_names_judged': n}
+    logging.disable(logging.NOTSET)
+    return n
+
+
+def replay_item_c02(S, r):
+    class C(object):
+        def __init__(self):
+            self.f = []
+            self.extra = {}
+
+        def fail(self, what, rep):
+            self.f.append((what, rep))
+    global PROGRAMS
+    saved, PROGRAMS = PROGRAMS, [r['source']]
+    try:
+        c = C()
+        run_c02(c, S)
+    finally:
+        PROGRAMS = saved
+    print('executed corpus program (C02): %s' % ('STILL FAILS: %s' % c.f[0][0] if c.f else 'passes now'))
+    return bool(c.f)
 
 
 def replay_item(S, r):
